@@ -130,6 +130,52 @@ mod verif_bounded {
         assert!(fails == 0, "{} failures", fails);
     }
 
+    /// existing backups that are not regular files (xcp makes such backups itself: renaming a destination that is a symbolic link, a
+    /// directory, a FIFO leaves an entry of that kind under the backup name): every kind of entry occupies its number
+    #[test]
+    fn bounded_backup_kinds() {
+        let universe: [u64; 3] = [1, 2, 10];
+        let mut fails = 0;
+        let mut cases = 0;
+        for kind in 0..5 {
+            for only_highest in [false, true] {
+                for mask in 1u32..(1u32 << universe.len()) {
+                    let dir = tempfile::TempDir::new().unwrap();
+                    let base = dir.path().join("f.txt");
+                    File::create(&base).unwrap();
+                    File::create(dir.path().join("referent")).unwrap();
+                    let mut maxn = 0u64;
+                    for (i, n) in universe.iter().enumerate() { if mask & (1 << i) != 0 && *n > maxn { maxn = *n; } }
+                    for (i, n) in universe.iter().enumerate() {
+                        if mask & (1 << i) == 0 { continue; }
+                        let p = dir.path().join(format!("f.txt.~{}~", n));
+                        let k = if only_highest && *n != maxn { 0 } else { kind };
+                        match k {
+                            0 => { File::create(&p).unwrap(); }
+                            1 => { std::os::unix::fs::symlink("referent", &p).unwrap(); }
+                            2 => { std::os::unix::fs::symlink("nowhere", &p).unwrap(); }
+                            3 => { std::fs::create_dir(&p).unwrap(); }
+                            _ => { assert!(std::process::Command::new("mkfifo").arg(&p).status().unwrap().success()); }
+                        }
+                    }
+                    cases += 1;
+                    let b2 = base.clone();
+                    let r = std::panic::catch_unwind(move || (has_backup(&b2), next_backup_num(&b2), get_backup_path(&b2)));
+                    let ok = match r {
+                        Ok((Ok(hb), Ok(n), Ok(bp))) => hb && n == maxn + 1 && bp.symlink_metadata().is_err(),
+                        _ => false,
+                    };
+                    if !ok {
+                        fails += 1;
+                        if fails <= 5 { report("backup_kinds", format!("existing backups mask={:#b} of (1,2,10), kind {} (0 file, 1 link to a file, 2 dangling link, 3 directory, 4 fifo){}: has_backup / next number / chosen path wrong (an earlier backup would be replaced)", mask, kind, if only_highest { " for the highest number only" } else { "" })); }
+                    }
+                }
+            }
+        }
+        println!("VERIF-BOUNDED-CASES {}", cases);
+        assert!(fails == 0, "{} failures", fails);
+    }
+
     /// destinations reached through symbolic links: the backups of a name live beside that *name* (the rename acts on the name as given),
     /// wherever a link in the last component points; a linked parent directory is the same directory
     #[test]
@@ -431,7 +477,7 @@ def backup_bounded(repo=None, overlay=None):
             'built': ran is not None,
             'failures': fails[:40],
             'cases': sum(int(x) for x in ms) + 8 * 2010 + 8,
-            'bound': 'expand_globs: every sequence of 1..3 patterns out of {two existing literals, a glob matching two files, a glob matching two hard links of one inode, a symbolic link beside its referent, a glob matching nothing, a missing literal} (399 cases); option values (Reflink, Backup, Drivers FromStr): every upper/lower-case spelling of every table word maps to its variant; the words of the other tables, every word with one character dropped or one of {s,x,1,blank,-} prepended/appended, and "", " ", "0", "true", "yes" are rejected; is_num_backup: 8 names (incl. non-UTF-8, prefix-like, one with a newline) x N in 1..=2000 plus 10 large N, 8 non-backup names; next number at the ends of the range: 2 names x all subsets of {0, 1, u64::MAX-1, u64::MAX}; 4 spellings of the destination (bare, ./, sub/, sub/../) x all subsets of {1,2,10}; 3 destinations reached through symbolic links (last component into another directory, into the same directory, a linked parent) x all subsets of {1,2,10}; '
+            'bound': 'expand_globs: every sequence of 1..3 patterns out of {two existing literals, a glob matching two files, a glob matching two hard links of one inode, a symbolic link beside its referent, a glob matching nothing, a missing literal} (399 cases); option values (Reflink, Backup, Drivers FromStr): every upper/lower-case spelling of every table word maps to its variant; the words of the other tables, every word with one character dropped or one of {s,x,1,blank,-} prepended/appended, and "", " ", "0", "true", "yes" are rejected; is_num_backup: 8 names (incl. non-UTF-8, prefix-like, one with a newline) x N in 1..=2000 plus 10 large N, 8 non-backup names; next number at the ends of the range: 2 names x all subsets of {0, 1, u64::MAX-1, u64::MAX}; 4 spellings of the destination (bare, ./, sub/, sub/../) x all subsets of {1,2,10}; 3 destinations reached through symbolic links (last component into another directory, into the same directory, a linked parent) x all subsets of {1,2,10}; existing backups of 5 kinds (file, link to a file, dangling link, directory, fifo; all of them or the highest only) x all non-empty subsets of {1,2,10}; '
                      'next_backup_num/has_backup/get_backup_path: 2 names (one non-UTF-8) x all 1024 subsets, a name with a newline x 29 subsets, of existing numbers {1,2,9,10,11,99,100,101,205,1000}',
             'wall_s': round(time.time() - t0, 1),
             'tail': '' if ran is not None else out[-1500:],
